@@ -44,6 +44,8 @@ def most_significant_bits(field_descriptor: FieldDescriptor, pattern: Buffer) ->
     we also assume that the pattern is provided as bytes and that it is left-padded, if necessary. 
     """
     field_value: Buffer = field_descriptor.value
+    if pattern.length > field_value.length:
+        return False
     most_significant_bits = field_value.shift(shift=(field_value.length-pattern.length), inplace=False)
     return most_significant_bits == pattern
 
